@@ -109,7 +109,7 @@ def check_schedule(case, prop, nvals, after_step=None, unsafe_is_violation=False
             if bad:
                 kind, det = bad
                 raise Violation(
-                    {"op": step[0], "kind": kind, "args": json.dumps({a: b for a, b in desc.items() if a not in ("op", "at", "loop", "err")}, sort_keys=True, default=str)},
+                    {"op": step[0], "kind": kind, "poison": str("derived POISON" in det), "args": json.dumps({a: b for a, b in desc.items() if a not in ("op", "at", "loop", "err")}, sort_keys=True, default=str)},
                     f"step {k}: {json.dumps(desc, default=str)}\ninput {json.dumps(fv)}\n{det}\n--- original:\n{p0}\n--- before this step:\n{sp}\n--- after this step:\n{sq}\naccepted so far: {json.dumps(accepted, default=str)}",
                 )
         if after_step is not None:
